@@ -103,11 +103,11 @@ func Run(c *core.Ctx) {
 
 	// ---- R6 siblings, R7 ring index
 	siblings(c)
-	ring.ClampFunc(c, "R7.ring", c.Func(pkg, "", "roffset"), ring.ClampSpec{
+	ring.ClampFlow(c, "R7.ring", c.Func(pkg, "", "roffset"), ring.ClampSpec{
 		Params: []string{"blen", "size", "rpos", "wpos"}, Offset: "rpos",
 		Clamps: []string{"_wpos - _rpos", "_size - _offset"},
 	})
-	ring.ClampFunc(c, "R7.ring", c.Func(pkg, "", "woffset"), ring.ClampSpec{
+	ring.ClampFlow(c, "R7.ring", c.Func(pkg, "", "woffset"), ring.ClampSpec{
 		Params: []string{"blen", "size", "rpos", "wpos"}, Offset: "wpos",
 		Clamps: []string{"_size + _rpos - _wpos", "_size - _offset"},
 	})
@@ -217,78 +217,31 @@ func side(c *core.Ctx, fn *core.Fn, name, own, peer, peerErr string) {
 		})
 		c.Check("R4.wait", name+"/peer-open", wn.Pos(), okPeer,
 			fmt.Sprintf("Wait must be reachable only when %s is nil: sleeping after the other side closed can never be woken", peerErr), w3...)
-		// after Wait: nothing but a return of (0, nil); the results may be spelled as the
-		// store call's n and err, which the no-progress edge pins to 0 and nil
-		okRet, sawRet := true, false
-		seenB := map[*cfg.Block]bool{}
-		var walk func(b *cfg.Block, from int)
-		walk = func(b *cfg.Block, from int) {
-			for i := from; i < len(b.Nodes); i++ {
-				nd := b.Nodes[i]
-				if ret, isRet := nd.(*ast.ReturnStmt); isRet {
-					sawRet = true
-					if len(ret.Results) != 2 {
-						okRet = false
-						return
-					}
-					r0, r1 := ast.Unparen(ret.Results[0]), ast.Unparen(ret.Results[1])
-					if v, isC := core.IntConst(info, r0); !(isC && v == 0) && !pat.Same(info, r0, binds["_n"]) {
-						okRet = false
-					}
-					if !core.IsNil(info, r1) && !pat.Same(info, r1, binds["_err"]) {
-						okRet = false
-					}
-					return
-				}
-				if _, isDefer := nd.(*ast.DeferStmt); isDefer {
-					continue
-				}
-				if len(cfgq.ExecCalls(nd)) > 0 {
-					okRet = false
-				}
-				if as, isAs := nd.(*ast.AssignStmt); isAs {
-					for _, l := range as.Lhs {
-						if pat.Same(info, l, binds["_n"]) || pat.Same(info, l, binds["_err"]) {
-							okRet = false
-						}
-					}
-				}
-			}
-			for _, s := range b.Succs {
-				if !seenB[s] {
-					seenB[s] = true
-					walk(s, 0)
-				}
-			}
-		}
-		walk(wp.B, wp.I+1)
-		okRet = okRet && sawRet
+		okRet := ring.AfterWaitReturnsZero(info, wp, binds)
 		c.Check("R4.wait", name+"/return-after-wait", wn.Pos(), okRet, "after Wait the function must return (0, nil) so that the caller's loop re-examines the state under the lock")
 	}
-	// callers loop
+	// callers retry after a wake-up
 	callers := 0
 	for _, b := range ring.Bodies(c, pkg) {
-		var root ast.Node = b.Decl.Body
-		if b.Lit != nil {
-			root = b.Lit
+		if b.Lit == nil && b.Decl == fn.Decl {
+			continue
 		}
-		core.Inspect(root, func(m ast.Node) bool {
-			call, ok := m.(*ast.CallExpr)
-			if !ok || core.CalleeFunc(info, call) != fn.Obj {
-				return true
-			}
-			callers++
-			path := core.PathTo(root, call)
-			inLoop := false
-			for _, pn := range path {
-				if fs, ok := pn.(*ast.ForStmt); ok && fs.Cond == nil {
-					inLoop = true
-				}
-			}
-			c.Check("R4.wait", name+"/caller-loops/"+b.Name, call.Pos(), inLoop,
-				fmt.Sprintf("%s returns (0,nil) after a wake-up; its caller must retry in an unconditional for loop", name))
-			return true
-		})
+		cg := b.G
+		var bufObj types.Object
+		params := b.Decl.Type.Params
+		if b.Lit != nil {
+			params = b.Lit.Type.Params
+		}
+		if params != nil && len(params.List) > 0 && len(params.List[0].Names) > 0 {
+			bufObj = info.Defs[params.List[0].Names[0]]
+		}
+		n, w := ring.RetriesOnWake(cg, fn.Obj, bufObj)
+		if n == 0 {
+			continue
+		}
+		callers += n
+		c.Check("R4.wait", name+"/caller-loops/"+b.Name, b.Decl.Pos(), w == nil,
+			fmt.Sprintf("%s returns (0,nil) after a wake-up; its caller must call it again (unless the buffer is empty) instead of returning no progress to its own caller", name), w...)
 	}
 	if callers == 0 {
 		c.Undecidedf("R4.wait", name+"/caller-loops", fn.Decl.Pos(), "no caller of %s found", name)
